@@ -12,6 +12,10 @@ TARGETS = [
     ("fakesnow/expr.py", "key_command", "fakesnow.expr.key_command"),
     ("fakesnow/checks.py", "is_unqualified_table_expression", "fakesnow.checks.is_unqualified_table_expression"),
     ("fakesnow/conn.py", "FakeSnowflakeConnection.__init__", "fakesnow.conn.FakeSnowflakeConnection.__init__"),
+    ("fakesnow/info_schema.py", "insert_table_comment_sql", "fakesnow.info_schema.insert_table_comment_sql"),
+    ("fakesnow/info_schema.py", "insert_text_lengths_sql", "fakesnow.info_schema.insert_text_lengths_sql"),
+    ("fakesnow/cursor.py", "FakeSnowflakeCursor._log_sql", "fakesnow.cursor.FakeSnowflakeCursor._log_sql"),
+    ("fakesnow/cursor.py", "FakeSnowflakeCursor._execute", "fakesnow.cursor.FakeSnowflakeCursor._execute"),
 ]
 
 T = {cn.split("fakesnow.", 1)[1]: (rel, q, cn) for rel, q, cn in TARGETS}
